@@ -207,7 +207,7 @@ def exit_order(h, via, status='ACTIVE', oid='x'):
                            reduce_only=True, status=status, id=oid, submitted_via=via)
 
 
-def t_modify(kind, changed, nrows):
+def t_modify(kind, changed, nrows, orows=None):
     """declared stop-loss / take-profit differs from the remembered one -> cancel tagged orders first, then one order per row"""
     def t(h):
         w = common.futures_world(h, mode='cross')
@@ -234,7 +234,10 @@ def t_modify(kind, changed, nrows):
             else:
                 h.assume(ops.compare('>', p, ops.arith('*', cur, Fraction('1.01'))))
         s.f[kind] = [tuple(r) for r in new] if nrows > 1 else tuple(new[0])
-        if changed:
+        if changed and orows is not None and orows != nrows:
+            # a different number of rows is a modification whatever the rows hold (e.g. two identical rows reduced to one)
+            s.f['_' + kind] = arr2(rows2(h, 'o', orows))
+        elif changed:
             old = rows2(h, 'o', nrows)
             diff = False
             for (q, p), (q0, p0) in zip(new, old):
@@ -411,6 +414,8 @@ def tasks(tier):
             for n in (1, 2):
                 ts.append(Task(f'modify.{kind}.{"changed" if changed else "same"}.{n}', t_modify(kind, changed, n), extra=x,
                                overrides=dict(ov)))
+        for n, o in ((1, 2), (2, 1), (2, 3)):
+            ts.append(Task(f'modify.{kind}.rows{o}to{n}', t_modify(kind, True, n, o), extra=x, overrides=dict(ov)))
     ts.append(Task('on-close', t_on_close, extra=x, overrides=dict(ov)))
     ts.append(Task('execute-cancel', t_execute_cancel, extra=x, overrides=dict(ov)))
     for n in (0, 1):
